@@ -147,9 +147,12 @@ class Ctx:
         return self.tier == "thorough"
 
     # ---- parallel map over tasks; order permuted by seed, content never ----
-    def pmap(self, func, tasks, chunksize=1):
+    def pmap(self, func, tasks, chunksize=1, weight=None):
         tasks = list(tasks)
         self.rng.shuffle(tasks)
+        if weight is not None:
+            # longest-processing-time-first: the seed still permutes tasks of equal weight, the content never changes
+            tasks.sort(key=weight, reverse=True)
         if self.workers <= 1 or len(tasks) <= 1:
             for t in tasks:
                 yield func(t)
@@ -159,9 +162,9 @@ class Ctx:
             for r in pool.imap_unordered(func, tasks, chunksize):
                 yield r
 
-    def gather(self, func, tasks, chunksize=1) -> Acc:
+    def gather(self, func, tasks, chunksize=1, weight=None) -> Acc:
         acc = Acc()
-        for r in self.pmap(func, tasks, chunksize):
+        for r in self.pmap(func, tasks, chunksize, weight):
             acc.merge(r)
         return acc
 
